@@ -10,7 +10,7 @@ ENGINE = 'E3 bytes'
 TECHNIQUE = ('differential property-based testing: one-shot vs. chunked delivery of generated / mutated inbound '
              'byte streams on twin connections (all single split points for short streams)')
 RULE = ('cases: an inbound byte stream from a peer model (valid conversation incl. CONTINUATION chains, pushes, '
-        'settings that change the frame-size limit for later frames), optionally mutated structurally or bytewise; '
+        'settings that change the frame-size limit for later frames), optionally mutated structurally or bytewise, or followed by a flood of 1100..2500 small frames of one kind; '
         'every single split point for streams <= 300 bytes (sampled otherwise), all pairs of split points for '
         'streams <= 60 bytes, all-one-byte delivery and drawn multi-splits; plus sequences of data_to_send(amount) '
         'reads against a single read on a twin; evaluations count executed (stream, chunking) pairs; non-trivial = '
@@ -60,10 +60,15 @@ def run_case(data):
         return output_side(ch, r)
     sc = bytesgen.build(ch, big_frames=True)
     frames = sc.frames
-    mut = ch.weighted([(5, 'none'), (3, 'frames'), (2, 'bytes')])
+    mut = ch.weighted([(5, 'none'), (3, 'frames'), (2, 'bytes'), (1, 'flood')])
     start = 0 if sc.client else 1
     if mut == 'frames':
         frames, labs = bytesgen.mutate_frames(ch, frames, start)
+    if mut == 'flood':
+        # more small frames than the interpreter allows nested calls: one receive_data call or many, the same
+        flood, fk = bytesgen.frame_flood(ch)
+        frames = list(frames) + flood + list(frames[-1:])
+        r.labels.add('flood-of-' + fk)
     stream = b''.join(frames)
     if mut == 'bytes':
         stream = bytesgen.mutate_bytes(ch, stream)
